@@ -98,8 +98,15 @@ def oracle (specs : List String) (itimeline ires idump : String) : Bool × Strin
   let deliveredPorts := delivered.map portOfPayload
   -- at most once
   let amo := deliveredPorts.eraseDups.length == deliveredPorts.length && (deliveredPorts.all fun p => !queuedPorts.contains p)
-  -- only enqueued probes appear; refused ones never
-  let known := (deliveredPorts ++ queuedPorts).all fun p => enqueued.any fun (x : Nat × PSpec) => x.2.port == p
+  -- only enqueued probes appear; refused ones never.  A port identifies a probe, but what must come out is the WHOLE probe that
+  -- went in: every delivered payload, and every payload still queued (with its expiry), equals — address, port, goal, retries,
+  -- max — that of the enqueued probe carrying its port
+  let queuedPayloads : List (String × String) := (idump.splitOn ";").filterMap fun l => match l.splitOn "," with
+    | ["PI", _, a, port, goal, retries, maxr, exp] => some (s!"{a}/{port}/{goal}/{retries}/{maxr}", exp)
+    | _ => none
+  let known := (delivered.all fun p => enqueued.any fun (x : Nat × PSpec) => x.2.port == portOfPayload p && x.2.payload == p) &&
+    (queuedPayloads.all fun q => enqueued.any fun (x : Nat × PSpec) => x.2.port == portOfPayload q.1 && x.2.payload == q.1 && renderTime x.2.before == q.2) &&
+    queuedPayloads.length == queuedPorts.length
   let neverQueued := prods.all fun (x : Nat × PSpec) => !refused x.2 || (!executed x.1 && !queuedPorts.contains x.2.port && !deliveredPorts.contains x.2.port)
   -- conservation: enqueued = queued + delivered + expired + (lost with crashed consumers: only allowed if some consumer crashed)
   let accounted := queuedPorts.length + deliveredPorts.length + expiredCount
@@ -163,10 +170,14 @@ def handle (args out : List String) : Verdict :=
       let mres := ";".intercalate (s2.clients.map clientResult)
       let mdump := ";".intercalate (dumpRStore s2.store)
       let itraceC := if itrace.endsWith ",HUNG" then ",".intercalate ((itrace.splitOn ",").filter (· != "HUNG")) else itrace
-      let same := mtrace == itraceC && mres == ires && mdump == idump
-      let (ok, why) := oracle specs itl ires idump
-      let info := (if same then "" else (if mtrace != itraceC then s!"model-trace={mtrace} " else "") ++ (if mres != ires then s!"model-res={mres} " else "") ++
-        (if mdump != idump then s!"model-dump={mdump} " else "")) ++ why
+      -- the scheduler gave up on the case (`HUNG`: some client never finished although it was scheduled to completion):
+      -- the marker is stripped for the comparison of the traces, but the case is JUDGED — it fails, with `sig=hung` first
+      let hungCase := itrace.endsWith ",HUNG" || itrace == "HUNG"
+      let same := mtrace == itraceC && mres == ires && mdump == idump && !hungCase
+      let (ok0, why) := oracle specs itl ires idump
+      let ok := ok0 && !hungCase
+      let info := (cond hungCase "sig=hung " "") ++ why ++ (if same then "" else (if mtrace != itraceC then s!" model-trace={mtrace}" else "") ++ (if mres != ires then s!" model-res={mres}" else "") ++
+        (if mdump != idump then s!" model-dump={mdump}" else ""))
       verdict same ok info
     | _, _, _, _, _, _ => .bad "C12 parse"
   | _ => .bad "C12 shape"
